@@ -94,7 +94,7 @@ PROPS = {
         oplayer=['P2_lrucache_insert_unchecked', 'P2_lrucache_reallocate', 'P2_lrucache_try_reallocate', 'P2_lrucache_reserve', 'P2_lrucache_try_reserve', 'P2_lrucache_shrink_to', 'P2_lrucache_new_capacity', 'P2_lrucache_insert_untracked'],
         corr_only=['cap'], directed=['c13_shrink_raises'],
         comps=['cap', 'clone_cap', 'mon_c13', 'growth'] + [(c, CAPOPS) for c in ('res', 'keyset', 'order', 'ents', 'sizes', 'cur', 'max', 'drops')],
-        theorems=['C13_transparent', 'C13_reserve', 'C13_try_reserve_fail', 'C13_shrink', 'C13_shrink_to_fit', 'C13_with_capacity_step', 'C13_auto_growth', 'C13_growth_bounded', 'C13_monitor_growth_insert', 'C13_monitor_growth_try_insert', 'C13_monitor_sound', 'C13_pointer_level'],
+        theorems=['C13_transparent', 'C13_reserve', 'C13_try_reserve_fail', 'C13_shrink', 'C13_shrink_to_fit', 'C13_with_capacity_step', 'C13_with_capacity_run', 'C13_auto_growth', 'C13_growth_bounded', 'C13_monitor_growth_insert', 'C13_monitor_growth_try_insert', 'C13_monitor_sound', 'C13_pointer_level'],
         assumptions=['Layer T is a demonic abstraction of hashbrown: tombstone creation/reuse is an oracle resolved from the observed capacity; every observed (len, capacity, buckets) transition must be one the model allows',
                      'allocator refusal is injected by the harness allocator for try_reserve'],
     ),
@@ -158,7 +158,7 @@ MANIFEST_TEXT = {
     'C04': dict(text='Theorem C04_last_store_wins: after ANY history from new/with_capacity a lookup of any key finds exactly what the client-side sequential map sm_of holds (the value most recently stored by insert/try_insert/mutate unless the key has since been reported as removed, evicted, rejected by retain, cleared or drained), by induction over histories. Theorems C04_nodup (one entry per key in every reachable state), C04_outputs / C04_insert_returns_old (every lookup, membership test, insertion, removal returns what the map says) and C04_step (every step updates the key->value map as a sequential map would, whatever the table oracle does: growth/reserve/shrink anywhere). "Any hasher / borrowed form" is the assumed hashbrown contract, exercised not proved (partial, see note).', note=_A + '; partial: independence from the hash function rests on the assumed hashbrown contract', technique=_T),
     'C06': dict(text='Theorems C06_step (per-step multiset balance of object tokens: held + introduced = held + dropped + handed back (+ leaked by a forgotten Drain)) and C06_exactly_once (any history from creation to drop: every token exactly once in dropped / returned / leaked, never two of them), C06_no_leak_without_forget. The extracted monitor c06_mon and a never-dropped-twice check run on the implementation at identity level.', note=_A + '; the ptr::read paths of owning iterators are covered at list level here and at pointer level in Layer B', technique=_T),
     'C12': dict(text='Theorems C12_split / C12_fused: for every pattern of next/next_back on every list, fronts ++ rest ++ rev backs = list, None only after exhaustion and then for ever; C12_iter / C12_drain / C12_into_iter tie the operations to that specification (drain leaves an empty, valid cache; owning iterators drop exactly the unconsumed). Item sequences of all seven iterator kinds with random patterns past exhaustion are compared.', note=_A, technique=_T),
-    'C13': dict(text='Theorems over the Layer T abstraction of hashbrown capacity accounting, all oracles: C13_reserve, C13_shrink / C13_shrink_to_fit (never raises, keeps >= max(len,min)), C13_try_reserve_fail (state unchanged), C13_transparent, C13_with_capacity_step, C13_auto_growth (growth only when full, new capacity < max(4 x entries, 16)), C13_growth_bounded (over whole histories with ghost peak/request variables: full capacity < max(4 x peak len, 16) or within an explicit request, however long the churn); arithmetic of capacity_to_buckets / bucket_mask_to_capacity proved (c2b_spec). Monitors c13_mon and the history growth bound run on the implementation.', note=_A + '; tombstone behaviour of hashbrown is an oracle (over-approximated)', technique=_T),
+    'C13': dict(text='Theorems over the Layer T abstraction of hashbrown capacity accounting, all oracles: C13_reserve, C13_shrink / C13_shrink_to_fit (never raises, keeps >= max(len,min)), C13_try_reserve_fail (state unchanged), C13_transparent, C13_with_capacity_step, C13_with_capacity_run (a run of any length of at most n fresh, non-evicting insertions interleaved with lookups after with_capacity(n) never changes the table and never rebuilds; induction over runs), C13_auto_growth (growth only when full, new capacity < max(4 x entries, 16)), C13_growth_bounded (over whole histories with ghost peak/request variables: full capacity < max(4 x peak len, 16) or within an explicit request, however long the churn); arithmetic of capacity_to_buckets / bucket_mask_to_capacity proved (c2b_spec). Monitors c13_mon and the history growth bound run on the implementation.', note=_A + '; tombstone behaviour of hashbrown is an oracle (over-approximated)', technique=_T),
     'C14': dict(text='Theorems C14_equal (same entries, order, recorded sizes, counters; capacity >= source), C14_fresh, C14_inv (the clone satisfies the invariant so all theorems apply to it); Layer B frame theorems C14_footprint_touch/remove/insert and C14_independent: in a shared heap the list surgery on one cache writes only the nodes of that cache, so a cache with disjoint nodes keeps its invariant and content. On the implementation independence is observed through bit-for-bit fingerprints of all other caches after every operation.', note=_A + '; shared-heap frame theorems (Layer B) cover the list-surgery primitives, not whole public operations', technique=_T),
     'C15': dict(text='Theorem C15_retain for all predicates: visits = entries LRU to MRU once each with their own key/value, survivors = filter in order, size and drops re-accounted.', note=_A, technique=_T),
     'C20': dict(text='Theorem C20_bound for every operation, state and oracle: hashes + len after <= 2 + len before + added + (rebuilt ? len : 0), zero for traversals/clear/drain/LRU-MRU peeks/get_lru, rebuild only for reserve/try_reserve/shrink*/growing insertion; C20_clone. The implementation count of Hash::hash calls per API call must be <= the model count and satisfy the extracted bound c20_mon.', note=_A, technique=_T),
